@@ -21,12 +21,21 @@ Definition obs : Type := (N * N * N * N * N)%type.
    through the node's logger: decoded - dropped as unknown - dropped as duplicate), and whether these statistics are available *)
 Definition c17_case : Type := (list aplan * bool * bool * obs * (bool * list N) * list ev)%type.
 
-(* a response accepted while the attempt was registered is never lost: only the last attempt of a call can have one, and then the
-   call ends with a response (or with the caller's own cancellation), never with a timeout or another error *)
-Fixpoint acc_ok (acc : list N) (k attempts cls : N) : bool :=
+(* a response accepted while the attempt was registered is never lost: at most ONE attempt of a call can have an accepted response
+   (an accepted response ends the call), the call then ends with a response - the one of that very attempt - or with the caller's
+   own cancellation, never with a timeout or another error. The attempts are numbered by the RESPONDER in the order in which their
+   requests reached its handler, which under load need not be the order in which the requester sent them: the clause is
+   therefore phrased without assuming that the accepted attempt is the last in that numbering. *)
+Fixpoint acc_idx (acc : list N) (k : N) : list N :=
   match acc with
+  | [] => []
+  | a :: rest => (if 1 <=? a then [k] else []) ++ acc_idx rest (k + 1)
+  end.
+Definition acc_ok (acc : list N) (patt attempts cls : N) : bool :=
+  match acc_idx acc 1 with
   | [] => true
-  | a :: rest => (if 1 <=? a then (k =? attempts) && ((cls =? 0) || (cls =? 2)) else true) && acc_ok rest (k + 1) attempts cls
+  | [k] => ((cls =? 0) && (patt =? k)) || (cls =? 2)
+  | _ => false
   end.
 
 Definition payload_code (att kind : N) : N := att * 10 + kind.
@@ -60,7 +69,7 @@ Definition kind_allowed (a : aplan) (kind : N) : bool :=
 Definition spec_ok (pl : list aplan) (cancel strict : bool) (o : obs) (stats : bool * list N) : bool :=
   let '(cls, patt, kind, attempts, mine) := o in
   let budget := N.of_nat (length pl) in
-  (if fst stats then acc_ok (snd stats) 1 attempts cls else true) &&
+  (if fst stats then acc_ok (snd stats) patt attempts cls else true) &&
   if strict then
     if cancel then (cls =? 2) && (attempts =? 1)
     else match first_in_time pl 1 with
@@ -69,7 +78,7 @@ Definition spec_ok (pl : list aplan) (cancel strict : bool) (o : obs) (stats : b
          end
   else
     (* latency around the timeout: either outcome is legal, but the correlation and the budget are not negotiable *)
-    ((cls =? 0) && (patt =? attempts) && (mine =? 1) && ((kind =? 1) || (kind =? 2) || (kind =? 3)) && (1 <=? attempts) && (attempts <=? budget))
+    ((cls =? 0) && (1 <=? patt) && (patt <=? attempts) && (mine =? 1) && ((kind =? 1) || (kind =? 2) || (kind =? 3)) && (1 <=? attempts) && (attempts <=? budget))
     || ((cls =? 1) && (attempts =? budget))
     || (cancel && (cls =? 2) && (1 <=? attempts) && (attempts <=? budget)).
 
